@@ -1554,9 +1554,13 @@ def check_stream_framing(ctx, mod, consts):
             _fail("DNSProtocol.dataReceived: recursion limit of the analyser")
         return kind, val, len(ctl.called("messageReceived")), budget - ev.fuel
 
-    k, v, n, cost = run([frame(good)], MiniEval.FUEL)
-    ctx.check(k == "value" and n == 1, "framing/evaluated", q + " | one well-formed frame", f"dataReceived {'returns' if k == 'value' else k + ' ' + str(v)} and dispatches {n} message(s); expected 1")
-    budget = max(20000, 40 * cost)
+    k, v, n, cost = run([frame(good)], 100000)
+    ctx.check(k == "value" and n == 1, "framing/evaluated", q + " | one well-formed frame",
+              f"dataReceived {'returns' if k == 'value' else ('does not finish within 100000 interpreter steps' if k == 'budget' else 'raises ' + str(v))} and dispatches {n} message(s); expected 1")
+    if k == "budget":
+        return      # every further stream would spin in the same way
+    budget = min(120000, max(20000, 40 * cost))
+    ctx.extra["framing_step_budget"] = {"cost_of_a_well_formed_frame": cost, "budget": budget}
     two = frame(good) + frame(good)
     for label, chunks, want in (("two frames in one chunk", [two], 2), ("two frames cut after the length prefix and inside each message", [two[:2], two[2:20], two[20:len(frame(good)) + 2], two[len(frame(good)) + 2:]], 2)):
         k, v, n, _ = run(chunks, budget)
